@@ -31,8 +31,9 @@
    Whether the real code deviates is decided only by the replay (checks/c13.py). *)
 EXTENDS Integers, Sequences, FiniteSets, TLC
 
-CONSTANTS Orgs, Indexes, Aliases,     \* Indexes contains names that are prefixes of each other
+CONSTANTS Orgs, Indexes, Aliases,     \* Indexes contains names that extend each other (a, ab, abc): inner / leading wildcards must not take the longer name
           Exprs,                      \* index expressions queried (strings as sent)
+          DelExprs,                   \* index expressions deleted (direct names, wildcards matching no alias)
           TermsOf(_),                 \* expression -> set of comma separated terms
           Matches(_, _),              \* wildcard term x name -> BOOLEAN
           IsWild(_),                  \* term contains '*' (and is not just "*")
@@ -108,6 +109,23 @@ Rotate ==
   /\ un' = Empty /\ open' = Empty
   /\ UNCHANGED <<ev, tab, al, vtFile, vtMem, aliasMem, aliasKeys, deleted>>
 
+(* Ingest(o, i) immediately followed by Rotate, as ONE step of a generated history (the harness executes both).
+   Not part of Next: it adds no reachable state, it only lets the generators reach states in which one
+   (organisation, index) owns several rotated segments within the operation bound. *)
+IngestRotate(o, i) ==
+  /\ Step([op |-> "ingest_rotate", org |-> o, idx |-> i, id |-> nops + 1])
+  /\ ev' = [ev EXCEPT ![o][i] = @ \cup {nops + 1}]
+  /\ tab' = [tab EXCEPT ![o] = @ \cup {i}]
+  /\ vtFile' = IF i \in vtMem[o] THEN vtFile ELSE [vtFile EXCEPT ![o] = @ \cup {i}]
+  /\ vtMem' = [vtMem EXCEPT ![o] = @ \cup {i}]
+  /\ vis' = ev'
+  /\ LET buf == [p \in Orgs |-> [j \in Indexes |-> un[p][j] \cup open[p][j] \cup (IF p = o /\ j = i THEN {nops + 1} ELSE {})]]
+         new == {[org |-> p[1], idx |-> p[2], ids |-> buf[p[1]][p[2]]] : p \in {q \in Orgs \X Indexes : buf[q[1]][q[2]] # {}}}
+     IN /\ rot' = rot \cup new
+        /\ tbl' = [j \in Indexes |-> tbl[j] \cup {r \in new : r.idx = j}]
+  /\ un' = Empty /\ open' = Empty
+  /\ UNCHANGED <<al, aliasMem, aliasKeys, deleted>>
+
 AddAlias(o, a, i) ==
   /\ Step([op |-> "alias_add", org |-> o, alias |-> a, idx |-> i])
   /\ al' = [al EXCEPT ![o] = @ \cup {<<a, i>>}]
@@ -122,27 +140,32 @@ RemoveAlias(o, a, i) ==
   /\ aliasMem' = [aliasMem EXCEPT ![o] = @ \ {<<a, i>>}]     \* the key stays in aliasToIndexNames[org] with an empty map
   /\ UNCHANGED <<ev, vis, tab, vtFile, vtMem, aliasKeys, open, un, rot, tbl, deleted>>
 
-(* DELETE /elastic/<i> issued by organisation o (direct name) *)
-DeleteIndex(o, i) ==
-  /\ Step([op |-> "delete", org |-> o, idx |-> i, present |-> i \in tab[o]])
+(* DELETE /elastic/<e> issued by organisation o; e is a direct name or a wildcard expression that matches no
+   alias name (deleteIndex expands it with ExpandAndReturnIndexNames like a search) *)
+DeleteIndex(o, e) ==
+  LET del == Expand(o, e) \cap tab[o]            \* what the statement says is deleted
+      delI == ExpandI(o, e) \cap vtFile[o]        \* IsVirtualTablePresent reads the file
+  IN
+  /\ Step([op |-> "delete", org |-> o, idx |-> e, names |-> del, present |-> del # {}])
   /\ deleted' = TRUE
-  /\ ev' = [ev EXCEPT ![o][i] = {}] /\ vis' = [vis EXCEPT ![o][i] = {}]
-  /\ tab' = [tab EXCEPT ![o] = @ \ {i}]
-  /\ IF i \in vtFile[o]       \* IsVirtualTablePresent reads the file
-     THEN /\ vtFile' = [vtFile EXCEPT ![o] = @ \ {i}]
-          /\ vtMem' = IF FixRegistry THEN [vtMem EXCEPT ![o] = @ \ {i}] ELSE vtMem
-          /\ IF FixDelete
-             THEN /\ open' = [open EXCEPT ![o][i] = {}] /\ un' = [un EXCEPT ![o][i] = {}]
-                  /\ rot' = {r \in rot : ~(r.idx = i /\ r.org = o)}
-                  /\ tbl' = [tbl EXCEPT ![i] = {r \in @ : r.org # o}]
-             ELSE /\ open' = [p \in Orgs |-> [open[p] EXCEPT ![i] = {}]]     \* DeleteVirtualTableSegStore(name)
-                  /\ un' = [p \in Orgs |-> [un[p] EXCEPT ![i] = {}]]
-                  /\ rot' = {r \in rot : r.idx # i}                           \* removeSegmetas(nil, name) + RemoveAll(dirs)
-                  /\ tbl' = [tbl EXCEPT ![i] = {}]                            \* delete(hm.tableSortedMetadata, table)
-     ELSE UNCHANGED <<vtFile, vtMem, open, un, rot, tbl>>                     \* 404
+  /\ ev' = [ev EXCEPT ![o] = [i \in Indexes |-> IF i \in del THEN {} ELSE @[i]]]
+  /\ vis' = [vis EXCEPT ![o] = [i \in Indexes |-> IF i \in del THEN {} ELSE @[i]]]
+  /\ tab' = [tab EXCEPT ![o] = @ \ del]
+  /\ vtFile' = [vtFile EXCEPT ![o] = @ \ delI]
+  /\ vtMem' = IF FixRegistry THEN [vtMem EXCEPT ![o] = @ \ delI] ELSE vtMem
+  /\ IF FixDelete
+     THEN /\ open' = [open EXCEPT ![o] = [i \in Indexes |-> IF i \in delI THEN {} ELSE @[i]]]
+          /\ un' = [un EXCEPT ![o] = [i \in Indexes |-> IF i \in delI THEN {} ELSE @[i]]]
+          /\ rot' = {r \in rot : ~(r.idx \in delI /\ r.org = o)}
+          /\ tbl' = [i \in Indexes |-> IF i \in delI THEN {r \in tbl[i] : r.org # o} ELSE tbl[i]]
+     ELSE /\ open' = [p \in Orgs |-> [i \in Indexes |-> IF i \in delI THEN {} ELSE open[p][i]]]   \* DeleteVirtualTableSegStore(name)
+          /\ un' = [p \in Orgs |-> [i \in Indexes |-> IF i \in delI THEN {} ELSE un[p][i]]]
+          /\ rot' = {r \in rot : r.idx \notin delI}                          \* removeSegmetas(nil, name) + RemoveAll(dirs)
+          /\ tbl' = [i \in Indexes |-> IF i \in delI THEN {} ELSE tbl[i]]    \* delete(hm.tableSortedMetadata, table)
   /\ UNCHANGED <<al, aliasMem, aliasKeys>>
 
-Next == \/ \E o \in Orgs, i \in Indexes : Ingest(o, i) \/ DeleteIndex(o, i)
+Next == \/ \E o \in Orgs, i \in Indexes : Ingest(o, i)
+        \/ \E o \in Orgs, e \in DelExprs : DeleteIndex(o, e)
         \/ \E o \in Orgs, a \in Aliases, i \in Indexes : AddAlias(o, a, i) \/ RemoveAlias(o, a, i)
         \/ Flush \/ Rotate
 Spec == Init /\ [][Next]_vars
